@@ -240,4 +240,48 @@ def pathsSafe : Option (List (List (Nat × Nat))) → Bool
   | none => false
   | some ps => !ps.isEmpty && ps.all fun p => match decodePath p with | some es => (runPath es).safe | none => false
 
+/-! ### the byte pool under every reply buffer: one holder at a time
+
+Buffers and goroutines are numbers. `holder b` is the goroutine that was given buffer `b` by `GetBuf` and has not
+released it (`none`: `b` lies in the free list or was never handed out). Callers release only what they hold
+(the last-owner discipline of the call sites; for `udpWithFallback` it is `fallback_buffers_single_owner`).
+`direct` (regenerated: `Gen.Facts.c01PoolGetIsFreeListGet`): `GetBuf` is the free list's own `Get`, which finds
+a free buffer and takes it in one step (`get`). Otherwise `GetBuf` has a place of its own in front of the free
+list that it reads with one instruction (`look`: the buffer there is free) and empties with another (`take`),
+and any number of steps of other goroutines lie between the two. -/
+
+structure BufPool where
+  holder : Nat → Option Nat := fun _ => none        -- buffer -> the goroutine that holds it
+  seen : Nat → Option Nat := fun _ => none          -- goroutine -> the buffer it has found free and not yet taken
+  clash : List (Nat × Nat × Nat) := []              -- (buffer, its holder, the goroutine GetBuf gave it to as well)
+
+inductive PLabel where
+  | get (g b : Nat)        -- GetBuf in goroutine g returns b, found free and taken in one step
+  | look (g b : Nat)       -- first half of a two-step GetBuf: g finds b free
+  | take (g : Nat)         -- second half: g takes the buffer it found and returns it
+  | release (g b : Nat)    -- g gives b back
+  deriving DecidableEq, Repr
+
+def BufPool.step (direct : Bool) (s : BufPool) : PLabel → Option BufPool
+  | .get g b =>
+    if direct && (s.holder b).isNone then some { s with holder := upd s.holder b (some g) } else none
+  | .look g b =>
+    if !direct && (s.holder b).isNone then some { s with seen := upd s.seen g (some b) } else none
+  | .take g =>
+    if direct then none else
+    match s.seen g with
+    | none => none
+    | some b =>
+      match s.holder b with
+      | none => some { s with holder := upd s.holder b (some g), seen := upd s.seen g none }
+      | some h => some { s with holder := upd s.holder b (some g), seen := upd s.seen g none, clash := (b, h, g) :: s.clash }
+  | .release g b =>
+    if s.holder b = some g then some { s with holder := upd s.holder b none } else none
+
+def BufPool.run (direct : Bool) : BufPool → List PLabel → Option BufPool
+  | s, [] => some s
+  | s, l :: ls => match s.step direct l with
+    | none => none
+    | some s' => BufPool.run direct s' ls
+
 end Model.C01
